@@ -196,10 +196,26 @@ class PipelineSim(WorldBase):
                     self.q.append(["call", dict(call)])
                 if self.q:
                     return self.q.pop(0)
+        if self.stage == 1 and self.cfg["kind"] == "filter" and "G" in self.traces:
+            self.stage = 2
+            self.q = [["call", {"fn": "filter", "input": "G", "filter": "F", "id": "f2"}],
+                      ["call", {"fn": "filter", "input": "I", "filter": "F", "id": "f3"}]]
+            return self.q.pop(0)
         if self.stage == 1:
             # a second use of the models in the same process: the same trace file names hold other traces now
             # (another kernel collected under the same prefix), or a format the caller kept was given another width
             self.stage = 2
+            rn = [n for n in (self.last_call or {}).get("tensors", []) if n in self.traces and self.traces[n].get("tid")
+                  and len(self.traces[n]["order"]) >= 2]
+            if self.cfg["kind"] in ("buffet", "cache") and rn and g.random() < 0.7:
+                old0 = self.traces[rn[0]]["order"][0]
+                call2 = copy.deepcopy(self.last_call)
+                for b in call2["bindings"]:
+                    if b.get("evict-on") == old0:
+                        b["evict-on"] = "Q"
+                call2["id"] = "w0"
+                self.q = [["rewalk", {"name": rn[0], "new": "Q"}], ["call", call2]]
+                return self.q.pop(0)
             if self.cfg["kind"] in ("buffet", "cache") and self.last_call is not None and g.random() < 0.5:
                 if g.random() < 0.5:
                     self.q = [ev if ev[0] != "call" else ["call", dict(ev[1], id="p2" + ev[1].get("id", "c0"))]
@@ -291,9 +307,12 @@ class PipelineSim(WorldBase):
                                  pbits={r: 32 for r in tr2})
                     evs.append(["trace", spec2])
                     tens.append(spec2)
+            if len(tens) == 1 and not tens[0].get("upper") and g.random() < 0.3:
+                tens[0]["tid"] = {r: r.lower() + "x" for r in tens[0]["tranks"]}
             bindings = []
             for spec in tens:
-                b = {"tensor": spec["tensor"], "rank": order[-1], "type": spec.get("btype", "payload")}
+                b = {"tensor": spec["tensor"], "rank": (spec["tid"][order[-1]] if spec.get("tid") else order[-1]),
+                     "type": spec.get("btype", "payload")}
                 if kind == "buffet":
                     b["evict-on"] = g.choice(["root"] + order[:-1]) if len(order) > 1 else "root"
                 bindings.append(b)
@@ -327,7 +346,13 @@ class PipelineSim(WorldBase):
             a = self._gen_trace(g, "I", order, order, shape, "C", iter_like=True)
             extra = g.random() < 0.5 and nr < 3
             b = self._gen_trace(g, "F", order, order, shape, "C", iter_like=True, density=g.choice([0.3, 0.6, 1.0]))
-            evs += [["trace", a], ["trace", b], ["call", {"fn": "filter", "input": "I", "filter": "F", "id": "c0"}]]
+            evs += [["trace", a], ["trace", b]]
+            if g.random() < 0.5:
+                # a second input trace (written before anything is filtered) is filtered into the same output later
+                a2 = self._gen_trace(g, "G", order, order, shape, "C", iter_like=True)
+                evs.append(["trace", a2])
+                self.filter_second = True
+            evs.append(["call", {"fn": "filter", "input": "I", "filter": "F", "id": "c0"}])
         else:
             nr = g.randint(1, 3)
             order = RANKS[3 - nr:]
@@ -417,6 +442,8 @@ class PipelineSim(WorldBase):
                 return self.ev_call(ev[1])
             if kind == "respec":
                 return self.ev_respec(ev[1])
+            if kind == "rewalk":
+                return self.ev_rewalk(ev[1])
             raise Skip("unknown")
         except Skip as e:
             return {"status": "skipped", "why": str(e)}
@@ -429,6 +456,7 @@ class PipelineSim(WorldBase):
         order = spec["order"]
         # (traces replaced under the same names: comparisons across capacities start afresh)
         self.clean.pop(("sweepcap", spec["tensor"]), None)
+        self.__dict__.setdefault("loop_keep", {}).pop(spec["tensor"], None)
         head = ",".join([r + "_pos" for r in order] + list(order) + ["fiber_pos"]) + "\n"
         for side, rows in (("read", spec["rows"]), ("write", spec.get("wrows"))):
             if rows is None:
@@ -503,7 +531,8 @@ class PipelineSim(WorldBase):
         for name in a["names"]:
             if name not in self.traces:
                 continue
-            key = "-".join([name, a["rank"], self.traces[name].get("btype", "payload")])
+            sp0 = self.traces[name]
+            key = "-".join([name, (sp0["tid"][a["rank"]] if sp0.get("tid") else a["rank"]), sp0.get("btype", "payload")])
             base = os.path.join(self.dir, f"{self.traces[name].get('share') or name}-read")
             for fn in (f"{base}-comb-{key}.csv", f"{base}-comb-{key}-next-{key}.csv"):
                 with open(fn, "w") as f:
@@ -531,15 +560,48 @@ class PipelineSim(WorldBase):
                 fmts[name] = keep[name][1]
                 self.probe("format_object_kept_between_calls")
                 continue
-            t = Tensor(rank_ids=list(spec["tranks"]), shape=list(spec["shape"]))
+            tid = (lambda r: spec["tid"][r]) if spec.get("tid") else (lambda r: r)
+            t = Tensor(rank_ids=[tid(r) for r in spec["tranks"]], shape=list(spec["shape"]))
             fs = {}
             for r in spec["tranks"]:
-                fs[r] = {"format": spec["fmt"], "pbits": spec.get("pbits", {}).get(r, 32), "cbits": spec.get("cbits", 32)}
+                fs[tid(r)] = {"format": spec["fmt"], "pbits": spec.get("pbits", {}).get(r, 32), "cbits": spec.get("cbits", 32)}
                 if spec.get("btype") == "elem" and r == spec["order"][-1]:
-                    fs[r]["layout"] = "interleaved"       # an "elem" binding needs an array-of-structs rank
+                    fs[tid(r)]["layout"] = "interleaved"       # an "elem" binding needs an array-of-structs rank
             fmts[name] = Format(t, fs)
             keep[name] = (spec, fmts[name])
         return fmts
+
+    def ev_rewalk(self, a):
+        """the same tensor is walked by another kernel whose outer loop rank has another name: same rows, new header,
+        and the caller updates its loop_ranks dictionary in place"""
+        spec = self.traces.get(a["name"])
+        if spec is None or not spec.get("tid") or len(spec["order"]) < 2:
+            raise Skip("needs a renamed tensor under at least two loop ranks")
+        old, new = spec["order"][0], a["new"]
+        if new in spec["order"]:
+            raise Skip("name in use")
+        ren = lambda r: new if r == old else r
+        spec["order"] = [ren(r) for r in spec["order"]]
+        spec["tranks"] = [ren(r) for r in spec["tranks"]]
+        spec["tid"] = {ren(k): v for k, v in spec["tid"].items()}
+        if "pbits" in spec:
+            spec["pbits"] = {ren(k): v for k, v in spec["pbits"].items()}
+        head = ",".join([r + "_pos" for r in spec["order"]] + list(spec["order"]) + ["fiber_pos"]) + "\n"
+        for side, rows in (("read", spec["rows"]), ("write", spec.get("wrows"))):
+            if rows is None:
+                continue
+            with open(self.path(spec["tensor"], side), "w") as f:
+                f.write(head)
+                for r in rows:
+                    f.write(",".join(str(x) for x in r) + "\n")
+        lk = self.__dict__.setdefault("loop_keep", {}).get(a["name"])
+        if lk is not None:
+            for k in list(lk):
+                if lk[k] == old:
+                    lk[k] = new
+            lk.pop(old, None)           # (the library had filled in the loop order's own names)
+        self.probe("tensor_rewalked_under_other_loop_names")
+        return {"old": old, "new": new}
 
     def ev_respec(self, a):
         """the caller changes a width in the format specification it holds (fmt.spec[rank][...]) between two calls"""
@@ -549,7 +611,7 @@ class PipelineSim(WorldBase):
             raise Skip("no kept format")
         rank = spec["order"][-1]
         fmt = keep[a["name"]][1]
-        fmt.spec[rank]["pbits"] = a["pbits"]
+        fmt.spec[spec["tid"][rank] if spec.get("tid") else rank]["pbits"] = a["pbits"]
         spec.setdefault("pbits", {})[rank] = a["pbits"]
         self.probe("format_width_changed_between_calls")
         return {"rank": rank}
@@ -570,9 +632,18 @@ class PipelineSim(WorldBase):
                 fmts = self._formats(a["tensors"], a["line_elems"])
                 line = 32 * a["line_elems"]
                 trace_fns = {}
+                loop_ranks = None
                 for name in a["tensors"]:
                     spec = self.traces[name]
                     rank = spec["order"][-1]
+                    if spec.get("tid"):
+                        # the tensor calls its ranks by other names than the loops: the caller says which is which
+                        rank = spec["tid"][rank]
+                        lk = self.__dict__.setdefault("loop_keep", {})
+                        if name not in lk:
+                            lk[name] = {v: k for k, v in spec["tid"].items()}
+                        loop_ranks = lk[name]            # one dictionary object, kept (and edited) by the caller
+                        self.probe("call_with_loop_ranks")
                     bt = spec.get("btype", "payload")
                     trace_fns[(name, rank, bt, "read")] = self.path(spec.get("share") or name, "read")
                     if spec.get("wrows") is not None:
@@ -580,13 +651,19 @@ class PipelineSim(WorldBase):
                     if spec.get("upper") and any(b["rank"] == spec["upper"]["rank"] for b in a["bindings"]):
                         ur = spec["upper"]["rank"]
                         trace_fns[(name, ur, "payload", "read")] = self.path(name + "." + ur, "read")
-                bindings = [dict(b) for b in a["bindings"]]
+                # the caller builds its bindings once and passes the same list to every call (capacity sweeps, restarts)
+                bkeep = self.__dict__.setdefault("bind_keep", {})
+                bkey = repr(a["bindings"])
+                if bkey not in bkeep:
+                    bkeep[bkey] = [dict(b) for b in a["bindings"]]
+                bindings = bkeep[bkey]
+                kw = {"loop_ranks": loop_ranks} if loop_ranks is not None else {}
                 if fn == "buffet":
-                    res = Traffic.buffetTraffic(bindings, fmts, trace_fns, 10 ** 9, line)
+                    res = Traffic.buffetTraffic(bindings, fmts, trace_fns, 10 ** 9, line, **kw)
                 else:
                     # a capacity need not be a whole number of lines: the part of a line does not hold one
                     res = Traffic.cacheTraffic(bindings, fmts, trace_fns,
-                                               a["cap_lines"] * line + (a.get("cap_frac", 0) * line) // 4, line)
+                                               a["cap_lines"] * line + (a.get("cap_frac", 0) * line) // 4, line, **kw)
             elif fn == "filter":
                 if a["input"] not in self.traces or a["filter"] not in self.traces:
                     raise Skip("traces")
@@ -617,8 +694,11 @@ class PipelineSim(WorldBase):
         fs.fired = []
         fs.disarm()
         nev = fs.n
-        for h in list(fs.open_handles):
-            pass
+        if fn in ("buffet", "cache") and not fired and err is None:
+            kept = self.__dict__.get("bind_keep", {}).get(repr(a["bindings"]))
+            if kept is not None and kept != a["bindings"]:
+                self.V("C17", "C17.inputs-untouched", fn,
+                       f"the call changed the bindings list it was given: {a['bindings']} became {kept}")
         out = {"fn": fn, "err": err, "file_events": nev, "fault_fired": bool(fired)}
         if fired:
             self.fault("fs:" + fired[0][1] + ":" + fired[0][2])
@@ -701,7 +781,10 @@ class PipelineSim(WorldBase):
             name = b["tensor"]
             spec = self.traces[name]
             order = spec["order"]
-            pb = spec.get("pbits", {}).get(b["rank"], 32)
+            brank = b["rank"]
+            if spec.get("tid"):
+                brank = {v: k for k, v in spec["tid"].items()}.get(brank, brank)
+            pb = spec.get("pbits", {}).get(brank, 32)
             cb = spec.get("cbits", 32)
             # what the binding names: a coordinate, a payload, or an element (both) - whatever the rank's format
             pb = {"payload": pb, "coord": cb, "elem": cb + pb}[b.get("type", "payload")]
@@ -709,7 +792,7 @@ class PipelineSim(WorldBase):
             if b.get("type", "payload") != "payload":
                 self.probe("binding_type_" + b["type"])
             up = spec.get("upper")
-            if up and b["rank"] == up["rank"]:
+            if up and brank == up["rank"]:
                 nr = up["nr"]
                 R, W = up["rows"], None
                 shape_last = None
